@@ -312,3 +312,34 @@ def has_attr_executor(n):
 
 def attr_executor(n):
     return getattr(n, "_func_adl_executor")
+
+
+def list_contains(l, x):
+    return any(_same(y, x) for y in l)
+
+
+def is_param_record(p):
+    import inspect
+    return isinstance(p, inspect.Parameter)
+
+
+def param_name(p):
+    return p.name
+
+
+def param_default(p):
+    return p.default
+
+
+def is_empty_marker(d):
+    import inspect
+    return d is inspect.Parameter.empty
+
+
+def is_complex(d):
+    return isinstance(d, complex)
+
+
+def params_of(f):
+    import inspect
+    return list(inspect.signature(f).parameters.values())
